@@ -43,6 +43,9 @@ def run(S):
     else:
         f6 = twopass.explore(S, max_items=1, constructs=ALL, max_spaces=4)
         f6 += twopass.explore(S, max_items=2, constructs=ALL, gaps=[(), ('sp',), ('blk',)], ws_alts=A3, max_spaces=4, min_items=2)
+    # items that always expand (a code block with two statements) inside a list on a text line
+    f6 += twopass.explore(S, max_items=2, constructs=('call', 'array'), gaps=[(), ('sp',)] if S.tier == 'quick' else [(), ('sp',), ('blk',)],
+                          ws_alts=[' ', '\n'], max_spaces=3, min_items=1, last_kinds=('cblock2', 'cblock1'))
     twopass.report(S, 'C03', f6)
     # with reordering on, the chosen order must not depend on spacing that formatting normalises
     f4 = c19.explore_spacing(S, 2 if S.tier == 'quick' else 3)
